@@ -11,7 +11,6 @@ import (
 	"time"
 	"unicode/utf8"
 
-	"github.com/monstermichl/typeshell/lexer"
 	"verif/harness/corpus"
 	"verif/harness/lexref"
 	"verif/harness/run"
@@ -101,7 +100,7 @@ func FuzzC11(f *testing.F) {
 		if amb || (lerr != nil && strings.Contains(lerr.Error(), "unterminated block comment")) {
 			t.Skip()
 		}
-		got, err := lexer.Tokenize(src)
+		got, err := safeTokenize(src)
 		if lerr != nil {
 			if err == nil {
 				p := writeFuzzReplay("fuzz-"+strconv.Itoa(os.Getpid()), c11Case{Kind: "lex", Property: "C11", Source: src, WantErr: true, Note: "native fuzz: " + lerr.Error()})
